@@ -265,7 +265,8 @@ def export_behaviours(cfgfile: str, tag: str, module: str = "RetryMC.tla"):
         raise Machinery(f"spec-level counterexample while exporting ({cfgfile}): {res.violated}\n"
                         f"{res.output[-3000:]}")
     configs = res.tagged["CONFIGS"][0][0]
-    behs = [b[0] for b in res.tagged.get("BEH", [])]
+    # TLC's workers print in no fixed order: sort, so that everything chosen by index is reproducible
+    behs = sorted((b[0] for b in res.tagged.get("BEH", [])), key=lambda b: json.dumps(b, sort_keys=True))
     if not behs:
         raise Machinery(f"{cfgfile}: TLC exported no behaviour")
     return configs, behs, res
